@@ -51,6 +51,7 @@ package texttable
 //@   loop#1 invariant -1 <= rangeindex && rangeindex < len(lines) && len(linesWidths) == nLines && fresh(linesWidths) && nLines >= len(lines)
 //@   loop#1 invariant forall i int :: {linesWidths[i]} 0 <= i && i <= rangeindex ==> linesWidths[i].S == lines[i] && linesWidths[i].W == (len(lines) == 1 ? dims.cellWidth : W(lines[i]))
 //@   loop#1 invariant forall i int :: {linesWidths[i]} rangeindex < i && i < nLines ==> linesWidths[i].S == "" && linesWidths[i].W == 0
+//@   loop#1 assigns elems(columnWidths)
 //@   loop#1 decreases len(lines) - rangeindex
 
 //@ -- lwLen(c): number of line measurements stored on the cell (0 when it has not been measured)
@@ -70,12 +71,14 @@ package texttable
 //@   ensures [missing-cell-blank] forall l int, c int :: {result[l][c]} 0 <= l && l < len(result) && len(cells) <= c && c < columnCount ==> result[l][c].S == "" && result[l][c].W == 0 @C04
 //@   loop#1 invariant 0 <= i && i <= max && max == min(len(cells), columnCount) && len(columns) == max && fresh(columns) && lineCount >= 1 && lineCount <= 1099511627776
 //@   loop#1 invariant forall c int :: {columns[c]} 0 <= c && c < i ==> len(columns[c]) == lwLen(&cells[c]) && len(columns[c]) <= lineCount && (lwLen(&cells[c]) > 0 ==> columns[c] === linesOf(&cells[c]))
+//@   loop#1 assigns elems(columnWidths)
 //@   loop#1 decreases max - i
 //@   loop#2 invariant 0 <= l && l <= lineCount && len(lines) == lineCount && fresh(lines) && max == min(len(cells), columnCount) && len(columns) == max && lineCount >= 1 && lineCount <= 1099511627776
 //@   loop#2 invariant forall c int :: {columns[c]} 0 <= c && c < max ==> len(columns[c]) == lwLen(&cells[c]) && len(columns[c]) <= lineCount && (lwLen(&cells[c]) > 0 ==> columns[c] === linesOf(&cells[c]))
 //@   loop#2 invariant forall k int :: {lines[k]} 0 <= k && k < l ==> len(lines[k]) == columnCount && fresh(lines[k])
 //@   loop#2 invariant forall k int, c int :: {lines[k][c]} 0 <= k && k < l && 0 <= c && c < max ==> (k < lwLen(&cells[c]) ? (lines[k][c].S == linesOf(&cells[c])[k].S && lines[k][c].W == linesOf(&cells[c])[k].W) : (lines[k][c].S == "" && lines[k][c].W == 0))
 //@   loop#2 invariant forall k int, c int :: {lines[k][c]} 0 <= k && k < l && max <= c && c < columnCount ==> lines[k][c].S == "" && lines[k][c].W == 0
+//@   loop#2 assigns elems(columnWidths)
 //@   loop#2 decreases lineCount - l
 //@   loop#3 invariant 0 <= c && c <= max && 0 <= l && l < lineCount && len(lines) == lineCount && fresh(lines) && max == min(len(cells), columnCount) && len(columns) == max && lineCount >= 1 && lineCount <= 1099511627776 && len(lines[l]) == columnCount && fresh(lines[l])
 //@   loop#3 invariant forall c int :: {columns[c]} 0 <= c && c < max ==> len(columns[c]) == lwLen(&cells[c]) && len(columns[c]) <= lineCount && (lwLen(&cells[c]) > 0 ==> columns[c] === linesOf(&cells[c]))
@@ -84,4 +87,61 @@ package texttable
 //@   loop#3 invariant forall k int, j int :: {lines[k][j]} 0 <= k && k < l && max <= j && j < columnCount ==> lines[k][j].S == "" && lines[k][j].W == 0
 //@   loop#3 invariant forall j int :: {lines[l][j]} 0 <= j && j < c ==> (l < lwLen(&cells[j]) ? (lines[l][j].S == linesOf(&cells[j])[l].S && lines[l][j].W == linesOf(&cells[j])[l].W) : (lines[l][j].S == "" && lines[l][j].W == 0))
 //@   loop#3 invariant forall j int :: {lines[l][j]} max <= j && j < columnCount ==> lines[l][j].S == "" && lines[l][j].W == 0
+//@   loop#3 assigns elems(columnWidths)
 //@   loop#3 decreases max - c
+
+//@ -- alignOf(t, j): the alignment stored on column handle j (0 = all-columns default); effAlign: own setting, else default
+//@ spec alignOf(t *tabular.ATable, j int) Iface = lookup(heap[tabular.valueProperty.chain], heap[tabular.valueProperty.key], heap[tabular.valueProperty.val], t.columns[j].properties, mkiface(type[*align.propertyKey], box(align.PropertyType)))
+//@ spec effAlign(t *tabular.ATable, i int) Iface = alignOf(t, i + 1) != nil ? alignOf(t, i + 1) : alignOf(t, 0)
+
+//@ -- alignsValid(t): values stored under the alignment key are one of align.Left/Right/Center (N5; anything else panics by design)
+//@ pred alignsValid(t *tabular.ATable) = forall j int :: {t.columns[j]} 0 <= j && j < len(t.columns) ==> isAlign(alignOf(t, j)) && (alignOf(t, j) == nil || impl(dyn(alignOf(t, j)), align.Alignment))
+
+//@ -- measuredOK(): measured cell widths are lengths (N8: declared widths below 2^40)
+//@ pred measuredOK() = forall c *tabular.Cell :: {propOf(c, kDims())} 0 <= cellW(c) && cellW(c) <= 1099511627776
+
+//@ func (*TextTable).RenderTo
+//@   tags C03,C04,C15,C17,C09,C14
+//@   requires t != nil && tbl(t.Table) && ttab(t).nColumns <= 1048576
+//@   requires [writer-ok] !Wfailed
+//@   call InvokeRenderCallbacks after assume alignsValid(ttab(t)) && measuredOK()
+//@   ensures [table-still-wellformed] tbl(t.Table) @C09,C14
+//@   ensures [empty-decoration-refused] t.decor == decoration.EmptyDecoration ==> result != nil && Wn == old(Wn) @C17
+//@   ensures [failing-writer-surfaces] Wfailed ==> result != nil @C15
+//@   ensures [decoration-untouched] t.decor == old(t.decor) @C14
+//@   loop#1 invariant -1 <= rangeindex && rangeindex < columnCount && t != nil && tbl(t.Table) && alignsValid(ttab(t)) && measuredOK() && !Wfailed && columnCount == ttab(t).nColumns && columnCount <= 1048576 && len(columnWidths) == columnCount && fresh(columnWidths) && len(columnAligns) == columnCount && fresh(columnAligns) && (ttab(t).headerRow == nil ==> len(headers) == 0) && (ttab(t).headerRow != nil ==> headers === ttab(t).headerRow.cells) && widthsOK(columnWidths) && Wn == old(Wn)
+//@   loop#1 invariant forall i int :: {columnWidths[i]} 0 <= i && i <= rangeindex && i < len(headers) ==> cellW(&headers[i]) <= columnWidths[i]
+//@   loop#1 assigns elems(columnWidths)
+//@   loop#1 decreases columnCount - rangeindex
+//@   loop#2 invariant -1 <= rangeindex && rangeindex < len(ttab(t).rows) && t != nil && tbl(t.Table) && alignsValid(ttab(t)) && measuredOK() && !Wfailed && columnCount == ttab(t).nColumns && columnCount <= 1048576 && len(columnWidths) == columnCount && fresh(columnWidths) && len(columnAligns) == columnCount && fresh(columnAligns) && (ttab(t).headerRow == nil ==> len(headers) == 0) && (ttab(t).headerRow != nil ==> headers === ttab(t).headerRow.cells) && widthsOK(columnWidths) && Wn == old(Wn)
+//@   loop#2 invariant [header-fits] forall i int :: {columnWidths[i]} 0 <= i && i < len(headers) && i < columnCount ==> cellW(&headers[i]) <= columnWidths[i]
+//@   loop#2 invariant [rows-so-far-fit] forall r int, i int :: {&ttab(t).rows[r].cells[i]} 0 <= r && r <= rangeindex && !ttab(t).rows[r].isSeparator && 0 <= i && i < len(ttab(t).rows[r].cells) ==> cellW(&ttab(t).rows[r].cells[i]) <= columnWidths[i]
+//@   loop#2 assigns elems(columnWidths)
+//@   loop#2 decreases len(ttab(t).rows) - rangeindex
+//@   loop#3 invariant -1 <= rangeindex && rangeindex < len(row.cells) && -1 <= rangeindex2 && rangeindex2 + 1 < len(ttab(t).rows) && row == ttab(t).rows[rangeindex2 + 1] && !row.isSeparator && t != nil && tbl(t.Table) && alignsValid(ttab(t)) && measuredOK() && !Wfailed && columnCount == ttab(t).nColumns && columnCount <= 1048576 && len(columnWidths) == columnCount && fresh(columnWidths) && len(columnAligns) == columnCount && fresh(columnAligns) && (ttab(t).headerRow == nil ==> len(headers) == 0) && (ttab(t).headerRow != nil ==> headers === ttab(t).headerRow.cells) && widthsOK(columnWidths) && Wn == old(Wn)
+//@   loop#3 invariant [header-fits] forall i int :: {columnWidths[i]} 0 <= i && i < len(headers) && i < columnCount ==> cellW(&headers[i]) <= columnWidths[i]
+//@   loop#3 invariant [rows-so-far-fit] forall r int, i int :: {&ttab(t).rows[r].cells[i]} 0 <= r && r <= rangeindex2 && !ttab(t).rows[r].isSeparator && 0 <= i && i < len(ttab(t).rows[r].cells) ==> cellW(&ttab(t).rows[r].cells[i]) <= columnWidths[i]
+//@   loop#3 invariant [this-row-so-far-fits] forall i int :: {&row.cells[i]} 0 <= i && i <= rangeindex ==> cellW(&row.cells[i]) <= columnWidths[i]
+//@   loop#3 assigns elems(columnWidths)
+//@   loop#3 decreases len(row.cells) - rangeindex
+//@   loop#4 invariant -1 <= rangeindex && rangeindex < columnCount && t != nil && tbl(t.Table) && alignsValid(ttab(t)) && measuredOK() && !Wfailed && columnCount == ttab(t).nColumns && columnCount <= 1048576 && len(columnWidths) == columnCount && fresh(columnWidths) && len(columnAligns) == columnCount && fresh(columnAligns) && (ttab(t).headerRow == nil ==> len(headers) == 0) && (ttab(t).headerRow != nil ==> headers === ttab(t).headerRow.cells) && widthsOK(columnWidths) && Wn == old(Wn)
+//@   loop#4 invariant [effective-so-far] forall i int :: {columnAligns[i]} 0 <= i && i <= rangeindex ==> columnAligns[i] == effAlign(ttab(t), i)
+//@   loop#4 invariant forall i int :: {columnAligns[i]} rangeindex < i && i < columnCount ==> columnAligns[i] == nil
+//@   loop#4 invariant defaultAlignRaw == alignOf(ttab(t), 0)
+//@   loop#4 invariant [header-fits] forall i int :: {columnWidths[i]} 0 <= i && i < len(headers) && i < columnCount ==> cellW(&headers[i]) <= columnWidths[i]
+//@   loop#4 invariant [every-cell-fits] forall r int, i int :: {&ttab(t).rows[r].cells[i]} 0 <= r && r < len(ttab(t).rows) && !ttab(t).rows[r].isSeparator && 0 <= i && i < len(ttab(t).rows[r].cells) ==> cellW(&ttab(t).rows[r].cells[i]) <= columnWidths[i]
+//@   loop#4 assigns elems(columnAligns)
+//@   loop#4 decreases columnCount - rangeindex
+//@   call ForColumnWidths before assert [column-fits-its-widest-cell] (forall i int :: {columnWidths[i]} 0 <= i && i < len(headers) && i < columnCount ==> cellW(&headers[i]) <= columnWidths[i]) && (forall r int, i int :: {&ttab(t).rows[r].cells[i]} 0 <= r && r < len(ttab(t).rows) && !ttab(t).rows[r].isSeparator && 0 <= i && i < len(ttab(t).rows[r].cells) ==> cellW(&ttab(t).rows[r].cells[i]) <= columnWidths[i]) @C03
+//@   call ForColumnWidths before assert [effective-alignment-own-else-column-0] forall i int :: {columnAligns[i]} 0 <= i && i < columnCount ==> columnAligns[i] == effAlign(ttab(t), i) @C04
+//@   loop#5 invariant -1 <= rangeindex && rangeindex < len(rangeslice) && t != nil && tbl(t.Table) && alignsValid(ttab(t)) && measuredOK() && !Wfailed && columnCount == ttab(t).nColumns && columnCount <= 1048576 && len(columnWidths) == columnCount && fresh(columnWidths) && len(columnAligns) == columnCount && fresh(columnAligns) && (ttab(t).headerRow == nil ==> len(headers) == 0) && (ttab(t).headerRow != nil ==> headers === ttab(t).headerRow.cells) && widthsOK(columnWidths) && emitter.decor == &t.decor && emitter.colWidths === columnWidths && -4611686018427387904 <= emitter.totalWidth && emitter.totalWidth <= 4611686018427387904 && (forall i int :: {columnAligns[i]} 0 <= i && i < columnCount ==> columnAligns[i] == effAlign(ttab(t), i))
+//@   loop#5 assigns nothing
+//@   loop#5 decreases len(rangeslice) - rangeindex
+//@   loop#6 invariant -1 <= rangeindex && rangeindex < len(ttab(t).rows) && t != nil && tbl(t.Table) && alignsValid(ttab(t)) && measuredOK() && !Wfailed && columnCount == ttab(t).nColumns && columnCount <= 1048576 && len(columnWidths) == columnCount && fresh(columnWidths) && len(columnAligns) == columnCount && fresh(columnAligns) && (ttab(t).headerRow == nil ==> len(headers) == 0) && (ttab(t).headerRow != nil ==> headers === ttab(t).headerRow.cells) && widthsOK(columnWidths) && emitter.decor == &t.decor && emitter.colWidths === columnWidths && -4611686018427387904 <= emitter.totalWidth && emitter.totalWidth <= 4611686018427387904 && (forall i int :: {columnAligns[i]} 0 <= i && i < columnCount ==> columnAligns[i] == effAlign(ttab(t), i))
+//@   loop#6 assigns nothing
+//@   loop#6 decreases len(ttab(t).rows) - rangeindex
+//@   loop#7 invariant -1 <= rangeindex && rangeindex < len(rangeslice) && -1 <= rangeindex6 && rangeindex6 + 1 < len(ttab(t).rows) && t != nil && tbl(t.Table) && alignsValid(ttab(t)) && measuredOK() && !Wfailed && columnCount == ttab(t).nColumns && columnCount <= 1048576 && len(columnWidths) == columnCount && fresh(columnWidths) && len(columnAligns) == columnCount && fresh(columnAligns) && (ttab(t).headerRow == nil ==> len(headers) == 0) && (ttab(t).headerRow != nil ==> headers === ttab(t).headerRow.cells) && widthsOK(columnWidths) && emitter.decor == &t.decor && emitter.colWidths === columnWidths && -4611686018427387904 <= emitter.totalWidth && emitter.totalWidth <= 4611686018427387904 && (forall i int :: {columnAligns[i]} 0 <= i && i < columnCount ==> columnAligns[i] == effAlign(ttab(t), i))
+//@   loop#7 assigns nothing
+//@   loop#7 decreases len(rangeslice) - rangeindex
+//@   call HeaderLineRendered before assert [header-line-aligned-as-columns-ask] forall i int :: {columnAligns[i]} 0 <= i && i < columnCount ==> columnAligns[i] == effAlign(ttab(t), i) @C04
+//@   call BodyLineRendered before assert [body-line-aligned-as-columns-ask] forall i int :: {columnAligns[i]} 0 <= i && i < columnCount ==> columnAligns[i] == effAlign(ttab(t), i) @C04
